@@ -15,21 +15,33 @@ ASSUMPTIONS = [
 ]
 
 
-def presets(tier):
+def presets(tier, seed=0):
     """-> list of (name, options, countries or None).  Manuscript presets are taken from the shipped script itself."""
     pres = [(n, o, None) for n, o in workload.yaml_presets()]
     pres += [(n, o, cl) for n, o, cl in workload.script_presets()]
+    named = {n: o for n, o, _ in pres}
+    glob = [n for n, o, cl in pres if workload.is_global(o)]
     if tier == "thorough":
-        named = {n: o for n, o, _ in pres}
         anchors = ["yaml:argentina:argentina_net_nuclear_resilient"] + [n for n in named if n.startswith("script:fig1:0:")]
         for anchor in anchors:
             pres += [(n, o, None) for n, o in workload.single_option_variations(anchor, named[anchor]) if "scale" in named[anchor]]
+        ganchors = glob
+    else:
+        ganchors = workload.rotate(glob, seed)[:2]
+        # single-option variations of the shipped anchor for a rotating pair of countries
+        a = "yaml:argentina:argentina_net_nuclear_resilient"
+        isos = workload.all_isos()
+        pair = [workload.rotate([i for i in workload.HOSTILE if i in isos], seed * 7)[0], workload.rotate(isos, seed * 11 + 3)[0]]
+        pres += [(n, o, pair) for n, o in workload.single_option_variations(a, named[a])]
+    # single-option variations of the world-scale presets (every documented global value of every family)
+    for anchor in ganchors:
+        pres += [(n, o, ["WOR"]) for n, o in workload.single_option_variations(anchor, named[anchor])]
     return pres
 
 
 def gen_cases(tier, seed):
     isos = workload.all_isos()
-    pres = presets(tier)
+    pres = presets(tier, seed)
     cases = []
     hostile = [i for i in workload.HOSTILE if i in isos]
     for pi, (name, o, cl) in enumerate(pres):
